@@ -142,7 +142,8 @@ def create_range_from_length(length_range):
 
             if lower_length is None or lower_length == 0 or lower_length == 1:
                 if upper_length is None:
-                    range_rule_text += ", "
+                    # Any length is possible, so there is no limit on the value no matter what the other items say.
+                    return Range("")
                 elif upper_length == 1:
                     range_rule_text += "0...9, "
                 else:
